@@ -180,13 +180,13 @@ func init() {
 		Expl: "Decoder discipline: every json.Unmarshal error is checked and refuses (including inside the custom UnmarshalJSON methods); every leaf of the raw decoder structs is uint64/string/bool (so encoding/json itself refuses negative, fractional, over-64-bit values and scalars for lists); every big.Int.SetString uses constant base 10 and its result is used unmerged; copy completeness (each Goldilocks/BN254 leaf of the decoded proof and verifier data depends on the raw field of the same name and on no other raw field — dependency analysis of the decoding entry points); position (every copy loop reachable from the decoders is a plain 0..len-1 loop over a complete list and accesses elements at its own index). Value equality for arbitrary documents is not decided; ReadCommonCircuitData's configuration copy is covered by the positive tests' exact expectations.",
 		Rule: "one obligation per Unmarshal site, raw type, SetString site, decoded leaf, copy loop"})
 	registerProp(&propDef{ID: "C02", Rules: withState("C02", rulesC02), Floor: 38,
-		Expl: "Partial: (W3) every constant width that reaches the n-bit range primitive through the static call graph is a multiple of the commit checker's base width, the only configuration-dependent width is 64 − ProofOfWorkBits and it is a positive multiple of 16 for every common_circuit_data.json in the repository (else commit-based builds panic in the deferred drain); (dispatch) C06's obligations — no backend skips or mis-selects checks, so the verdict cannot depend on the backend through a dropped constraint; (W2) honest fit by the magnitude analysis (abstract interpretation of the gadget layer over upper bounds, context-sensitive, constant-propagating loop counters): in every context reaching a reduction the value is below p·2^n for the quotient width in force, every operand reaching MulAdd / Inverse is canonical (the hints refuse larger ones), no intermediate value reaches the BN254 field, and upper-layer functions exchange canonical values only — for every configuration and proof shape, under the stated input assumption (proof data and constants canonical); (sponge) a partial last chunk keeps the previous lanes, as needed for the 97-input circuit. Acceptance of concrete proofs (the algebraic identities themselves) is not decided.",
+		Expl: "Partial: (W3) every constant width that reaches the n-bit range primitive through the static call graph is a multiple of the commit checker's base width, the only configuration-dependent width is 64 − ProofOfWorkBits and it is a positive multiple of 16 for every common_circuit_data.json in the repository (else commit-based builds panic in the deferred drain); (dispatch) C06's obligations — no backend skips or mis-selects checks, so the verdict cannot depend on the backend through a dropped constraint; (W2) honest fit by the magnitude analysis (abstract interpretation of the gadget layer over upper bounds, context-sensitive, constant-propagating loop counters): in every context reaching a reduction the value is below p·2^n for the quotient width in force, every operand reaching MulAdd / Inverse is canonical (the hints refuse larger ones), no intermediate value reaches the BN254 field, and upper-layer functions exchange canonical values only — for every configuration and proof shape, under the stated input assumption (proof data and constants canonical); (sponge) a partial last chunk keeps the previous lanes, as needed for the 97-input circuit; (HB) honest hints fit: for every NewHint site the outputs are traced (field- and call-site-sensitive) to the range check their gadget applies, and an interval analysis of the hint body with the facts of its dominating branches shows that the value stored into results[k] stays below that bound on every path returning nil and is never a possibly-nil *big.Int. Acceptance of concrete proofs (the algebraic identities themselves) is not decided.",
 		Rule: "one obligation per width reaching the range primitive, per circuit description, per C06 rule, per reduction / hint-operand site (worst case over contexts), per package for the interface invariant"})
 	registerProp(&propDef{ID: "C10", Rules: withState("C10", func(cx *Ctx) []Obligation {
 		return append(append(rulesC10(cx), rulesMulAcc(cx, "C10", "poseidon")...), ruleNoEmptyLimb(cx)...)
 	}), Floor: 10,
-		Expl: "Narrow structural clauses only — the injectivity half of C10: in HashNoPad and HashOrNoop the limbs are packed by a loop accumulator acc' = acc + limb_k·base^k (recurrence extracted from the SSA phi; base a compile-time constant ≥ 2^64; exponent = the limb's own index; number of limbs per element bounded — by the slice bounds lo+c / min(_, lo+c) or by a dominating len(input) ≤ c — with base^T ≤ r), and ToVec splits the canonical bit decomposition (no explicit width) into consecutive disjoint chunks of ≤ 63 bits. Plus the MulAcc accumulator discipline (MA) at every MulAcc site of the poseidon package (BN254 permutation, packing): the accumulator is owned and dead after the call, so the computed hash does not depend on the R1CS builder re-using storage. Agreement of the BN254 Poseidon permutation, sponge and shortcut with the reference PoseidonBN128 for all inputs is numeric and not decided.",
-		Rule: "one obligation per packing accumulator, for the chunking, and per MulAcc site"})
+		Expl: "Narrow structural clauses only — the injectivity half of C10: in HashNoPad and HashOrNoop the limbs are packed by a loop accumulator acc' = acc + limb_k·base^k (recurrence extracted from the SSA phi; base a compile-time constant ≥ 2^64; exponent = the limb's own index; number of limbs per element bounded — by the slice bounds lo+c / min(_, lo+c) or by a dominating len(input) ≤ c — with base^T ≤ r), and ToVec splits the canonical bit decomposition (no explicit width) into consecutive disjoint chunks of ≤ 63 bits. Plus the MulAcc accumulator discipline (MA) at every MulAcc site of the poseidon package (BN254 permutation, packing): the accumulator is owned and dead after the call, so the computed hash does not depend on the R1CS builder re-using storage. Plus absorb tiling: the chunk and limb loops of HashNoPad tile [0, len(input)) — start 0, while index < len, stride equal to the width of the window [i, min(len, i+W)) — so every element is absorbed exactly once for every length. Agreement of the BN254 Poseidon permutation, sponge and shortcut with the reference PoseidonBN128 for all inputs is numeric and not decided.",
+		Rule: "one obligation per packing accumulator, for the chunking, the tiling, and per MulAcc site"})
 	registerProp(&propDef{ID: "C15", Rules: withState("C15", rulesC15), Floor: 9,
 		Expl: "Narrow structural clauses only — the selector-filtering and position-wise-sum half of C15, decided on the SSA of plonk/gates: EvaluateGateConstraints calls evalFiltered once for every gate with the gate's own row, selectorIndices[i], groups[selectorIndices[i]] and NumSelectors(); the results are added position-wise into a zeroed vector of numGateConstraints that is returned; evalFiltered reads the selector constant before RemovePrefix, strips exactly numSelectors constants before the gate sees them, multiplies every returned constraint by the filter; computeFilter is ∏(i−s) over [start,end) skipping exactly i = row, times (UNUSED_SELECTOR−s) iff several selectors, UNUSED_SELECTOR = 2^32−1. Equality of each Gate.EvalUnfiltered with plonky2's gate polynomial for all wire values is numeric and NOT decided.",
 		Rule: "one obligation per structural clause of the filter/sum code"})
@@ -209,15 +209,15 @@ func init() {
 		Expl: "From VerifierChip.Verify: an n-bit range check executes on every path on the value stored in FriChallenges.FriPowResponse of the derived challenges, with width expression 64 − <FRI config>.ProofOfWorkBits, and that value depends on the proof's PowWitness; the width check is live in every backend (C06 obligations) and constant widths are aligned (W3). The transcript order (witness observed before the response is squeezed) is C11's obligation. The arithmetic 'width w ⇔ ≥ 64−w leading zeros of a canonical 64-bit value' is argued in DESIGN.md, not checked.",
 		Rule: "one obligation per clause"})
 	registerProp(&propDef{ID: "C12", Rules: withState("C12", func(cx *Ctx) []Obligation { return append(rulesC12(cx), rulesC10(cx)...) }), Floor: 8,
-		Expl: "From VerifierChip.Verify: per query round (loop covering every round, co-indexed by a refusal guard) and per tree, an equality executes on every path between a digest that depends on the opened leaf (both coordinates of all evaluations for commit-phase trees), on every sibling (full-range hashing loop) and on the query-index bits, and a cap entry selected by four bits from the top CapHeight bits of the same decomposition; initial tree t is compared against caps[t] in the order [ConstantSigmasCap, WiresCap, PlonkZsPartialProductsCap, QuotientPolysCap]. Plus C10's structural clauses (the leaf is hashed through an injective, non-wrapping limb packing). Left/right ordering and the lookup arithmetic are pinned by the positive tests and not claimed.",
+		Expl: "From VerifierChip.Verify: per query round (loop covering every round, co-indexed by a refusal guard) and per tree, an equality executes on every path between a digest that depends on the opened leaf (both coordinates of all evaluations for commit-phase trees), on every sibling (full-range hashing loop) and on the query-index bits, and a cap entry selected by four bits from the top CapHeight bits of the same decomposition; initial tree t is compared against caps[t] in the order [ConstantSigmasCap, WiresCap, PlonkZsPartialProductsCap, QuotientPolysCap]. The Merkle path is folded unconditionally (O12.4): the running digest of the next level is exactly element 0 of the permutation applied at this level, feeds that permutation, and is compared as it is. Plus C10's structural clauses (the leaf is hashed through an injective, non-wrapping limb packing that absorbs every element once). Left/right ordering and the lookup arithmetic are pinned by the positive tests and not claimed.",
 		Rule: "one obligation per tree family, index provenance, caps order, packing accumulator"})
 	registerProp(&propDef{ID: "C13", Rules: withState("C13", rulesC13), Floor: 9,
-		Expl: "Presence and coverage only: per round and step the two coordinate equalities between the bit-selected claimed evaluation and the running evaluation; after the steps the two equalities against the final polynomial at the folded point; the invertibility assertions; coverage of all rounds. The domain point, combination and interpolation formulas are not decided.",
+		Expl: "Presence and coverage only: per round and step the two coordinate equalities between the bit-selected claimed evaluation and the running evaluation; after the steps the two equalities against the final polynomial at the folded point; the invertibility assertions; coverage of all rounds; the running evaluation is recomputed in every step from that step's data (no value stored into it in the step loop depends on its previous value) and is only ever compared (O13.6). The domain point, combination and interpolation formulas are not decided.",
 		Rule: "one obligation per equality coordinate / assertion / loop coverage"})
 	registerProp(&propDef{ID: "C16", Rules: withState("C16", func(cx *Ctx) []Obligation {
-		return append(append(rulesC16(cx), rulesConfigCoverage(cx, "C16/O16.3")...), ruleC16Windows(cx)...)
+		return append(append(append(rulesC16(cx), rulesConfigCoverage(cx, "C16/O16.3")...), ruleC16Windows(cx)...), ruleC16ChainEnds(cx)...)
 	}), Floor: 8,
-		Expl: "Presence and coverage only: for every challenge round (full-range loop, count = Config.NumChallenges) an extension equality (both coordinates) between the vanishing value (depending on gates, wires, sigmas, Z, Z(next), partial products, public-input hash, challenges) and Z_H·quotient (from QuotientPolys via ReduceWithPowers); the L₀ division asserts existence. The formula is not decided.",
+		Expl: "Presence and coverage only: for every challenge round (full-range loop, count = Config.NumChallenges) an extension equality (both coordinates) between the vanishing value (depending on gates, wires, sigmas, Z, Z(next), partial products, public-input hash, challenges) and Z_H·quotient (from QuotientPolys via ReduceWithPowers); the L₀ division asserts existence; the partial-product openings are read through consecutive per-round windows (O16.5); the chain of running products is closed at both ends on every path — Z(ζ) and Z(gζ) are read and used unconditionally by the function that closes the chain, so a shape with no partial products still gets its check (O16.6). The formula is not decided.",
 		Rule: "one obligation per coordinate and assertion"})
 	registerProp(&propDef{ID: "C05", Rules: withState("C05", withC06(func(cx *Ctx) []Obligation {
 		return append(append(rulesC05(cx), rulesW3(cx, "C05")...), rulesMagnitude(cx, "C05")...)
@@ -225,9 +225,10 @@ func init() {
 		Expl: "R1 hint discipline, generic over every Compiler().NewHint call of the module: each hint output is itself the argument of a must-executed range check (bound recorded) and a must-executed equality ties all outputs to all inputs; W1: both sides of each tying equality, evaluated as polynomial bounds over the enforced output bounds and the operand contract (< p), stay below the BN254 modulus, per constant quotient width reaching the site through the call graph (interprocedural constant propagation; globals only if never re-assigned); W3 alignment of every constant width reaching the n-bit range primitive; plus C06's obligations (a backend that drops checks voids the bounds). Decides uniqueness of the witnessed result (no wrap) structurally; does not bound operand magnitudes at every reduction site of the whole verifier (W2, see DESIGN).",
 		Rule: "one obligation per hint output, per tying equality, per (hint site × reaching width), per width reaching the range primitive"})
 	registerProp(&propDef{ID: "C07", Rules: withState("C07", func(cx *Ctx) []Obligation {
-		return append(append(rulesC07(cx), rulesMulAcc(cx, "C07", "goldilocks")...), rulesParamRelevance(cx, "C07", func(n string) bool { return !strings.Contains(n, "Extension") && !strings.Contains(n, "Algebra") })...)
+		obs := append(append(rulesC07(cx), rulesMulAcc(cx, "C07", "goldilocks")...), rulesParamRelevance(cx, "C07", func(n string) bool { return !strings.Contains(n, "Extension") && !strings.Contains(n, "Algebra") })...)
+		return append(obs, rulesHintBodies(cx, "C07")...)
 	}), Floor: 24,
-		Expl: "Narrow structural clauses only: Inverse's product assertion is conditioned on IsZero(x) and the flag derives from it; Reduce forwards the never-reassigned constant RANGE_CHECK_NB_BITS ≥ 144; every reducing method of gl.Chip returns a hint output confined to [0,p) by a must-executed canonical range check. Plus the MulAcc accumulator discipline (MA) at every MulAcc site of the goldilocks package: the accumulator is owned and dead after the call, so the result does not depend on the R1CS builder re-using its storage. Numerical exactness for all operands is not decided.",
+		Expl: "Narrow structural clauses only: Inverse's product assertion is conditioned on IsZero(x) and the flag derives from it; Reduce forwards the never-reassigned constant RANGE_CHECK_NB_BITS ≥ 144; every reducing method of gl.Chip returns a hint output confined to [0,p) by a must-executed canonical range check. Plus the MulAcc accumulator discipline (MA) at every MulAcc site of the goldilocks package: the accumulator is owned and dead after the call, so the result does not depend on the R1CS builder re-using its storage. Plus honest hints (HB): every hint output stays below the bound of the range check its gadget applies, on every path of the hint body that returns nil, and no possibly-nil *big.Int is handed back (interval analysis of the hint bodies; inverse of zero must produce a value). Numerical exactness for all operands is not decided.",
 		Rule: "one obligation per clause / per reducing method of gl.Chip (enumerated from the method set) / per MulAcc site"})
 	registerProp(&propDef{ID: "C08", Rules: withState("C08", func(cx *Ctx) []Obligation {
 		return append(append(append(rulesC08(cx), rulesC08Widths(cx)...), rulesMagnitude(cx, "C08")...), rulesParamRelevance(cx, "C08", func(n string) bool { return strings.Contains(n, "Extension") })...)
@@ -235,9 +236,10 @@ func init() {
 		Expl: "Narrow structural clauses only: InverseExtension must-asserts IsZero(a[0])·IsZero(a[1]) == 0 (zero test over both coordinates); DivExtension passes its divisor itself to InverseExtension on every path; every quotient width that reaches the witnessed reduction (including from the extension API) admits a single result (W1) and the reduction/MulAdd hint discipline holds (R1). The field identities are not decided.",
 		Rule: "one obligation per clause"})
 	registerProp(&propDef{ID: "C09", Rules: withState("C09", func(cx *Ctx) []Obligation {
-		return append(append(append(rulesC09(cx), rulesC09Function(cx)...), ruleSpongeOverwrite(cx)...), ruleSpongeSqueeze(cx)...)
+		obs := append(append(append(rulesC09(cx), rulesC09Function(cx)...), ruleSpongeOverwrite(cx)...), ruleSpongeSqueeze(cx)...)
+		return append(obs, ruleAbsorbTiling(cx, "C09/O9.4/absorb-tiling", "poseidon", "(*GoldilocksChip).HashNToMNoPad")...)
 	}), Floor: 28,
-		Expl: "Narrow structural clauses only: HashNoPad reduces every input (full-range loop) and hands only reduction results to the sponge; the permutation is a function: R1/W1 for every hint site reached from the Goldilocks Poseidon (widths of the s-box reductions); sibling constant tables used by the base and extension implementations agree element-wise and every table constant is < p. Equality with plonky2's Poseidon for all inputs is not decided.",
+		Expl: "Narrow structural clauses only: HashNoPad reduces every input (full-range loop) and hands only reduction results to the sponge; the permutation is a function: R1/W1 for every hint site reached from the Goldilocks Poseidon (widths of the s-box reductions); sibling constant tables used by the base and extension implementations agree element-wise and every table constant is < p; the sponge absorbs in overwrite mode, its chunk loop tiles [0, len(input)) (start 0, while i < len, stride = rate, element i+j with j < rate) and it squeezes from the rate part only. Equality with plonky2's Poseidon for all inputs is not decided.",
 		Rule: "one obligation per clause, per reaching width, per table"})
 	registerProp(&propDef{ID: "C06", Rules: withState("C06", rulesC06), Floor: 20,
 		Expl: "Decides, on the type-checked SSA of package goldilocks, that every range check reaches a live checker in every backend configuration: enum-dispatch path analysis of the dispatcher for every declared RangeCheckerType constant; constructor path analysis (Defer of the drain iff COMMIT, installed checker matches kind, selector returns each kind only under the matching type assertions, overrides can only force bit decomposition); the drain covers every collected (value,width) with alignment refusals; the bit-decomposition checker decomposes to its own width; RangeCheck's limb split (two 32-bit limbs, recomposition multiplier 2^32 evaluated as a linear form, top-limb rule). Does not evaluate ranges numerically: that [0,p) / [0,2^n) is then exactly the accepted set follows from these obligations by the arithmetic argued in DESIGN.md and from gnark's checkers (trusted).",
